@@ -218,6 +218,23 @@ impl Property for C19 {
             sc.schedule = Schedule::Random { num: 1, den: 8, seed: rng.next() };
             return sc;
         }
+        if rng.chance(1, 20) {
+            // every thread is deep inside nested constructs at the same time: a budget, counter or pool shared by
+            // all threads of the process shows only when the sum over the threads exceeds what one call reaches
+            let nt = 3 + rng.usize_below(2);
+            let mut deep: Vec<Vec<Op>> = vec![];
+            for _ in 0..nt {
+                let d = 22 + rng.usize_below(9);
+                let mut c = Call::new(if rng.coin() { Api::RawSv } else { Api::ParseSvStr }, "");
+                c.text = Some(gen::deep_parens(&mut rng, d));
+                deep.push(vec![Op::Call(c)]);
+            }
+            sc.threads = deep;
+            sc.expect = serde_json::json!({});
+            sc.family = "deep-nesting".into();
+            sc.schedule = Schedule::Random { num: 1, den: 6, seed: rng.next() };
+            return sc;
+        }
         if rng.chance(1, 16) {
             // a crowd: more threads in one process than any fixed-size per-thread table would hold. Two
             // directive- and comment-heavy workers, and 127..134 one-shot threads between them
